@@ -16,7 +16,7 @@ META = {
         "k<0, mapping kind, reference kind, has_subregions, n[a] != n[b]); non-trivial = "
         "k mod 4 != 0 and more than one cell in the rotation plane."
     ),
-    "cases": {"quick": 600, "thorough": 20000},
+    "cases": {"quick": 600, "thorough": 120000},
     "workers": {"quick": 8, "thorough": 16},
     "timeout": {"quick": 600, "thorough": 5400},
     "deciding": [
